@@ -5,6 +5,7 @@ package main
 
 import (
 	"fmt"
+	"go/token"
 	"go/types"
 	"sort"
 	"strings"
@@ -608,7 +609,58 @@ func c14Loaders(c *Ctx) {
 				}
 			}
 		}
-		c.Check(ok2 >= 2, "T-TYPEFLOW", fname(f), "both public coordinates compared with the private key's, mismatch rejected", "", fmt.Sprintf("%d rejecting coordinate comparisons found", ok2), f.Pos())
+		// ... or in a helper that answers "do the keys match" (true only if every compared coordinate is equal), on
+		// whose false answer the loader rejects
+		for _, ci := range allCalls(f) {
+			call, isCall := ci.(*ssa.Call)
+			if !isCall {
+				continue
+			}
+			h := call.Call.StaticCallee()
+			if h == nil || !inRepo(h) || h.Blocks == nil || h.Signature.Results().Len() != 1 || h.Signature.Results().At(0).Type().String() != "bool" {
+				continue
+			}
+			// the loader must reject when the helper says false
+			callerRejects := false
+			for _, ifi := range ifsOf(f) {
+				if ifi.Cond == ssa.Value(call) {
+					if g := evalReject(c.P, f, []Atom{{ifi, 0, "keys match"}}, spec); g.OK {
+						callerRejects = true
+					}
+				}
+				if u, isNot := ifi.Cond.(*ssa.UnOp); isNot && u.Op == token.NOT && u.X == ssa.Value(call) {
+					if g := evalReject(c.P, f, []Atom{{ifi, 1, "keys match"}}, spec); g.OK {
+						callerRejects = true
+					}
+				}
+			}
+			if !callerRejects {
+				continue
+			}
+			hbe := newBigEnv(h, allParamNames(h))
+			hspec := resultSpec{0, "bool"}
+			for _, ifi := range ifsOf(h) {
+				st, ok := decodeSignTest(ifi.Cond)
+				if !ok || st.Kind != "Cmp" {
+					continue
+				}
+				x := hbe.valueAt(st.X, st.Call).String()
+				y := hbe.valueAt(st.Y, st.Call).String()
+				if (strings.HasSuffix(x, ".X") && strings.HasSuffix(y, ".X")) || (strings.HasSuffix(x, ".Y") && strings.HasSuffix(y, ".Y")) {
+					if ps, ok := passSuccFor([3]bool{false, true, false}, st.TrueSet); ok {
+						if g := evalReject(c.P, h, []Atom{{ifi, ps, "coordinate equal"}}, hspec); g.OK {
+							ok2++
+						}
+					}
+				}
+			}
+		}
+		if ok2 >= 2 {
+			c.Holds("T-TYPEFLOW", fname(f), "both public coordinates compared with the private key's, mismatch rejected", "", f.Pos())
+		} else {
+			// bool helpers called by the loader were followed: the verdict stands even if such a helper is new
+			c.ViolatedHard("T-TYPEFLOW", fname(f), "both public coordinates compared with the private key's, mismatch rejected", fmt.Sprintf("%d rejecting coordinate comparisons found (in the loader and in the boolean helpers it calls): a key pair whose public point differs from the certificate's in one coordinate is accepted", ok2), f.Pos())
+		}
 	}
 }
 
